@@ -211,6 +211,52 @@ def wind_on_threshold(ctx, pmod):
                 ctx.replayed()
 
 
+def _threaded_ptm3(seed, n, nk, nth, workers):
+    """np_ptm3 / np_ptm1 from a pool of threads (what a threaded dask scheduler does with the blocks): every result must be the serial
+    one and must add up to its input."""
+    from concurrent.futures import ThreadPoolExecutor
+    import wavespectra.partition.partition as pmod
+    rng = np.random.RandomState(seed)
+    freq, dirs = 0.04 + 0.01 * np.arange(nk), np.arange(nth) * (360.0 / nth)
+    ii, jj = np.meshgrid(np.arange(nk), np.arange(nth), indexing="ij")
+    specs = []
+    for _ in range(n):
+        a = np.zeros((nk, nth))
+        for _k in range(4):
+            ci, cj, amp = rng.randint(1, nk - 1), rng.randint(0, nth), rng.randint(30, 90)
+            dj = np.minimum((jj - cj) % nth, (cj - jj) % nth)
+            a += np.maximum(0, amp - 0.4 * (np.abs(ii - ci) + dj) ** 2)
+        specs.append(a + rng.randint(1, 3, size=a.shape))
+    def one(x):
+        try:
+            return np.asarray(pmod.np_ptm3(x, x, freq, dirs, parts=None, ihmax=100), float)
+        except BaseException as ex:  # noqa  (an outcome under concurrency, not a harness failure)
+            return "%s: %s" % (type(ex).__name__, str(ex)[:80])
+    serial = [one(x) for x in specs]
+    with ThreadPoolExecutor(max_workers=workers) as ex:
+        par = list(ex.map(one, specs * 3))
+    differ = sum(1 for k, m in enumerate(par) if isinstance(m, str) or isinstance(serial[k % n], str) or m.shape != serial[k % n].shape or not np.array_equal(m, serial[k % n]))
+    lost = sum(1 for k, m in enumerate(par) if not isinstance(m, str) and not np.allclose(m.sum(axis=0), specs[k % n], rtol=1e-6, atol=0))
+    return differ, lost, len(par)
+
+
+def concurrent_partitions(ctx):
+    from harness.core import run_forked
+    n, nk, nth, workers = (24, 40, 48, 8) if ctx.quick else (96, 48, 72, 16)
+    kind, val = run_forked(_threaded_ptm3, ctx.seed, n, nk, nth, workers, timeout=900)
+    ctx.case(("threads-ptm3", n, nk, nth, workers), True)
+    if kind == "crash":
+        ctx.violation({"where": "threads", "kind": "crash"}, "the interpreter died while %d threads partitioned spectra concurrently (%s)" % (workers, val))
+        return
+    differ, lost, total = val
+    if differ or lost:
+        ctx.violation({"where": "threads", "clause": "Conserving" if lost else "serial-result"},
+                      "np_ptm3 from %d concurrent threads: %d of %d results differ from the serial ones, %d do not add up to their input" % (workers, differ, total, lost),
+                      {"grid": [nk, nth], "workers": workers})
+    else:
+        ctx.replayed(total)
+
+
 def forwarding(ctx, pmod):
     import xarray as xr
     from wavespectra.core.utils import smooth_spec
@@ -394,6 +440,8 @@ def run(ctx):
     # windows the accessor result equals the numpy-level function called with the same values on each spectrum
     forwarding(ctx, pmod)
     wind_on_threshold(ctx, pmod)
+    # ---- the same routines entered from several threads at once (the blocks of a threaded dask computation)
+    concurrent_partitions(ctx)
     # ---- extension beyond the listed property: the Hanson & Phillips merging (hp01) as a state machine, model-checked and
     # trace-validated; reported in the evidence notes only
     try:
